@@ -335,3 +335,61 @@ Print Assumptions C13_safe_shl_limbs.
 Print Assumptions C13_src_try_push_ok.
 Print Assumptions C13_src_deref_rep.
 Print Assumptions C13_src_shl_limbs_refines.
+
+(** SOURCE TIE, heap back-end (tools/rs2coq rule 31): the non-delegating functions of impl HeapVec (src/heapvec.rs) are regenerated as Gallina on every run (coq/gen/SrcHeapVec.v; the std::vec::Vec methods they call are given by model/SrcLibHeap.v with std's amortised capacity growth) and coincide with the heap case of the list-level vector model: a heap try_* never fails and its effect on contents and capacity is model/Vec.v's. *)
+From ML Require Import model.SrcLibHeap gen.SrcHeapVec proofs.SrcEqHeapVec.
+
+Theorem C13_rs_hv_new_eq :
+  forall (L : limits) (b : build), rs_hv_new L b = Ok (vnew L).
+Proof. exact rs_hv_new_eq. Qed.
+
+Theorem C13_rs_hv_len_eq :
+  forall (L : limits) (b : build) (v : vec), rs_hv_len L b v = Ok (vlen v).
+Proof. exact rs_hv_len_eq. Qed.
+
+Theorem C13_rs_hv_capacity_eq :
+  forall (L : limits) (b : build) (v : vec), rs_hv_capacity L b v = Ok (vcap v).
+Proof. exact rs_hv_capacity_eq. Qed.
+
+Theorem C13_rs_hv_try_push_eq :
+  forall (L : limits) (b : build) (v : vec) (x : Z),
+         exists v' : vec, Vec.try_push true v x = Some v' /\ rs_hv_try_push L b v x = Ok (v', true).
+Proof. exact rs_hv_try_push_eq. Qed.
+
+Theorem C13_rs_hv_pop_eq :
+  forall (L : limits) (b : build) (v : vec), rs_hv_pop L b v = Ok (snd (vpop v), fst (vpop v)).
+Proof. exact rs_hv_pop_eq. Qed.
+
+Theorem C13_rs_hv_try_extend_eq :
+  forall (L : limits) (b : build) (v : vec) (s : list Z),
+         exists v' : vec, Vec.try_extend true v s = Some v' /\ rs_hv_try_extend L b v s = Ok (v', true).
+Proof. exact rs_hv_try_extend_eq. Qed.
+
+Theorem C13_rs_hv_try_resize_eq :
+  forall (L : limits) (b : build) (v : vec) (n x : Z),
+         exists v' : vec, Vec.try_resize true v n x = Some v' /\ rs_hv_try_resize L b v n x = Ok (v', true).
+Proof. exact rs_hv_try_resize_eq. Qed.
+
+Theorem C13_rs_hv_try_from_eq :
+  forall (L : limits) (b : build) (s : list Z), rs_hv_try_from L b s = Ok (Vec.try_from true L s).
+Proof. exact rs_hv_try_from_eq. Qed.
+
+Theorem C13_rs_hv_deref_eq :
+  forall (L : limits) (b : build) (v : vec), rs_hv_deref L b v = Ok (vl v).
+Proof. exact rs_hv_deref_eq. Qed.
+
+Theorem C13_rs_hv_set_len_eq :
+  forall (L : limits) (b : build) (v : vec) (n : Z),
+         0 <= n <= vlen v -> vlen v <= vcap v -> rs_hv_set_len L b v n = vec_set_len v n.
+Proof. exact rs_hv_set_len_eq. Qed.
+
+Print Assumptions C13_rs_hv_new_eq.
+Print Assumptions C13_rs_hv_len_eq.
+Print Assumptions C13_rs_hv_capacity_eq.
+Print Assumptions C13_rs_hv_try_push_eq.
+Print Assumptions C13_rs_hv_pop_eq.
+Print Assumptions C13_rs_hv_try_extend_eq.
+Print Assumptions C13_rs_hv_try_resize_eq.
+Print Assumptions C13_rs_hv_try_from_eq.
+Print Assumptions C13_rs_hv_deref_eq.
+Print Assumptions C13_rs_hv_set_len_eq.
